@@ -478,6 +478,20 @@ def _from(ctx, args, ck):
         return VecObj([ctx.m.clone(x) for x in sl.items()])
     if dst == 'Option':
         return Some(v)
+    if dst in ('HashSet', 'BTreeSet', 'HashMap', 'BTreeMap') and isinstance(v, Arr):
+        from models_coll import map_find
+        mp = MapObj(dst)
+        for x in v.fields:
+            if dst.endswith('Set'):
+                if map_find(ctx, mp, x) is None:
+                    mp.entries.append([x, None])
+            else:
+                e = map_find(ctx, mp, x.fields[0])
+                if e is None:
+                    mp.entries.append([x.fields[0], x.fields[1]])
+                else:
+                    e[1] = x.fields[1]
+        return mp
     if dst in ('Box', 'Arc', 'Rc'):
         return BoxObj(v) if dst == 'Box' else ArcObj(v)
     if dst in ('Error', 'PyErr'):
